@@ -8,9 +8,10 @@ def rand_trs(r):
         return '___z___z__'
     if k == 2:
         return r.choice(['XXXz97w14', '154nXXXz01', '154n97wXX', '___z97w14', '154n___z__', '154n97w__', 'garbage'])
-    t = r.choice([1, 2, 2, 3, 10, 154])
-    rg = r.choice([1, 2, 2, 3, 97])
-    s = r.choice([1, 1, 2, 3, 14, 36])
+    # zero is a valid number for each component (Township 0 North, Section 00): it sorts first, not with the errors
+    t = r.choice([0, 1, 2, 2, 3, 10, 154])
+    rg = r.choice([0, 1, 2, 2, 3, 97])
+    s = r.choice([0, 1, 1, 2, 3, 14, 36])
     return f"{t}{r.choice('nnns')}{rg}{r.choice('wwwe')}{s:02d}"
 
 
